@@ -192,6 +192,7 @@ var howBad = map[string]string{}
 func (r *Runner) c09Fixtures() map[string]string {
 	type fx struct {
 		plugin, name, src string
+		sub               map[string]string // sibling packages: relative file -> content
 	}
 	var fxs []fx
 	unsup := map[string]string{"chan": "chan int", "func": "func()", "iface": "interface{ M() }"}
@@ -208,7 +209,7 @@ func (r *Runner) c09Fixtures() map[string]string {
 			for pos, decl := range map[string]string{"field": "type T struct {\n\tA int\n\tX %s\n}", "elem": "type T struct {\n\tA int\n\tX []%s\n}", "mapval": "type T struct {\n\tA int\n\tX map[string]%s\n}",
 				"arr": "type T struct {\n\tA int\n\tX [2]%s\n}", "ptr": "type T struct {\n\tA int\n\tX *%s\n}", "ptrarr": "type T struct {\n\tA int\n\tX *[2]%s\n}"} {
 				name := fmt.Sprintf("%s_%s_%s", plugin, uk, pos)
-				fxs = append(fxs, fx{plugin, name, fmt.Sprintf("package %s\n\n"+decl+"\n\n%s\n", name, ut, call)})
+				fxs = append(fxs, fx{plugin, name, fmt.Sprintf("package %s\n\n"+decl+"\n\n%s\n", name, ut, call), nil})
 			}
 		}
 	}
@@ -219,8 +220,9 @@ func (r *Runner) c09Fixtures() map[string]string {
 		"finder_nested_third":    "func use(m map[string]int) (int, string, []string) { return deriveTuple3(len(m), \"a\", deriveSort(deriveKeys(m)))() }",
 		"finder_undefined_later": "func use(m map[string]int) { deriveTupleU(1, undefinedThing(m)) }",
 		"finder_undefined_first": "func use(m map[string]int) { deriveTupleU(undefinedThing(m), 1) }",
+		"finder_undefined_mixed": "func ok(a, b []int) bool { return deriveEqual(a, b) }\n\nfunc use() bool { return deriveEqual(undefinedThing, 1) }",
 	} {
-		fxs = append(fxs, fx{"finder", name, fmt.Sprintf("package %s\n\n%s\n", name, body)})
+		fxs = append(fxs, fx{"finder", name, fmt.Sprintf("package %s\n\n%s\n", name, body), nil})
 	}
 	// argument validation: non-function arguments, wrong arity, mismatched argument types, unordered types for
 	// min/max/sort, variadic signatures, unhashable elements. Each must be rejected with a diagnostic, or be
@@ -306,7 +308,16 @@ func (r *Runner) c09Fixtures() map[string]string {
 		"dup_nonchan":        "func use() { _, _ = deriveDup(3) }",
 		"pipeline_mismatch":  "func use() { _ = derivePipeline(func(a int) <-chan string { return nil }, func(b int) <-chan int { return nil }) }",
 	} {
-		fxs = append(fxs, fx{"arg:" + name, "arg_" + name, fmt.Sprintf("package arg_%s\n\n%s%s\n", name, pre, body)})
+		fxs = append(fxs, fx{"arg:" + name, "arg_" + name, fmt.Sprintf("package arg_%s\n\n%s%s\n", name, pre, body), nil})
+	}
+	// termination: user packages named like a standard-library package the generated file imports as well (the
+	// import-alias search must end); must generate and type-check
+	for _, std := range []string{"math", "sort", "bytes"} {
+		name := "samename_" + std
+		call := map[string]string{"math": "func use(v *" + std + ".Vec) uint64 { return deriveHash(v) }", "sort": "func use(v *sort.Vec, l []string) (bool, []string) { return deriveEqual(v, v), deriveSort(l) }",
+			"bytes": "type W struct {\n\tV *bytes.Vec\n\tB []byte\n}\n\nfunc use(a, b *W) bool { return deriveEqual(a, b) }"}[std]
+		fxs = append(fxs, fx{"samename:" + std, name, fmt.Sprintf("package %s\n\nimport \"%s/vxfix/c09/%s/%s\"\n\n%s\n", name, modPath, name, std, call),
+			map[string]string{std + "/vec.go": "package " + std + "\n\ntype Vec struct {\n\tX, Y float64\n}\n"}})
 	}
 	sort.Slice(fxs, func(i, j int) bool { return fxs[i].name < fxs[j].name })
 	type out struct {
@@ -322,6 +333,10 @@ func (r *Runner) c09Fixtures() map[string]string {
 		dir := filepath.Join(r.S.Repo, rel)
 		os.MkdirAll(dir, 0o755)
 		os.WriteFile(filepath.Join(dir, "x.go"), []byte(fxs[i].src), 0o644)
+		for f, c := range fxs[i].sub {
+			os.MkdirAll(filepath.Dir(filepath.Join(dir, f)), 0o755)
+			os.WriteFile(filepath.Join(dir, f), []byte(c), 0o644)
+		}
 		o, code, err := runCmd(r.S.Repo, goEnv(), 2*time.Minute, r.S.Goderive, "./"+rel)
 		outs[i] = out{code: code, msg: trunc(o, 300)}
 		if err != nil && code == -2 {
